@@ -8,6 +8,7 @@ mod cmd_model;
 mod cmd_num;
 mod cmd_serve;
 mod cmd_threads;
+mod cmd_tokens;
 mod cmd_ptrace;
 mod cmd_pure;
 mod cmd_recognize;
@@ -24,6 +25,7 @@ fn main() {
     "json" => cmd_json::main(),
     "serve" => cmd_serve::main(),
     "threads" => cmd_threads::main(),
+    "tokens" => cmd_tokens::main(),
     "ws" => cmd_ws::main(),
     "guard" => guard::main(),
     "model" => cmd_model::main(),
